@@ -249,6 +249,8 @@ def run(ctx, R, tier):
     for o in R5.obs:
         if o.key in ("C05-R3|handleRequest|error-reply-table", "C05-R4|_sendExceptionResponse|first-dumps-guarded", "C05-R4|_sendExceptionResponse|fallback-pyroerror"):
             R.add("C07-R3", o.key.split("|", 1)[1], o.desc, o.ok, o.loc, o.detail)
+        if o.rule == "C05-R8" and o.key.split("|")[-1] in ("Pyro5.server", "Pyro5.serializers", "Pyro5.client", "Pyro5.core", "Pyro5.errors"):
+            R.add("C07-R3", "definite-assignment|" + o.key.split("|")[-1], o.desc + " (a NameError raised while an exception is being reported replaces it)", o.ok, o.loc, o.detail)
 
     gpt = ctx.fn("Pyro5.errors.get_pyro_traceback")
     reads_tb = any(isinstance(n, ast.Call) and isinstance(n.func, ast.Name) and n.func.id == "getattr" and len(n.args) >= 2 and isinstance(n.args[1], ast.Constant)
